@@ -252,7 +252,7 @@ def monitor(h, lines):
 
 # ----------------------------------------------------------------------------- decision function
 LOCAL = ["none", "accepted", "shutdown", "closed", "closedshutdown"]
-PEER = ["ok", "err", "absent"]
+PEER = ["ok", "err", "absent", "nostream"]
 
 
 def dv_cases():
@@ -264,7 +264,7 @@ def dv_cases():
                     for fwd in ("1", "0") if kind == "ack" else ("1",):
                         if kind == "ack" and mgr == "0":
                             continue   # DeliverAckToShardOwner is only reachable in routing mode, where the manager exists
-                        if mgr == "0" and peer != "absent":
+                        if mgr == "0" and peer not in ("absent",):
                             continue   # without a manager there are no peer streams
                         res.append("DV %s %s %s %s %s %s %s %s" % (kind, lo, ml, owner, addr, mgr, peer, fwd))
     return res
